@@ -319,3 +319,21 @@ CHECKS["C03"] = {
          "checks_quick": 12, "checks_thorough": 300, "shards_quick": 8, "shards_thorough": 16, "timeout_quick": 400, "timeout_thorough": 2400},
     ],
 }
+
+CHECKS["C06"] = {
+    "level": "exploration",
+    "technique": "property-based testing over generated copy placements with drawn timestamps (reads, read-repair) and generated table deliveries (merge) with a max-timestamp / order-independence oracle (rapid)",
+    "level_text": ("reads: on stepped in-process clusters (2-4 members, R 1-3, read-repair on/off, optionally a member joined without balancing so that partitions have previous owners) every holder of a key - primary owner, previous owners, backup owners - "
+                   "independently gets no copy or a copy whose timestamp is drawn from a 4-value set (ties included), written directly into its fragment. A Get through any member must return a value carrying the maximum timestamp (any of the tied ones), not-found only if no copy exists; "
+                   "with read-repair one Get must bring the owner's own copy and every backup copy that had an older timestamp to the newest version and leave the newest copies untouched; with read-repair off no copy may change. "
+                   "merge: a target fragment with 0-5 entries receives 1-4 tables built with the real engine (overlapping keys, arbitrary timestamps) through internal.node.movefragment in a drawn order with repetitions; every key must end with the maximum timestamp of everything delivered or pre-existing."),
+    "level_note": "trusted: the accessor that writes a copy with a chosen timestamp into a fragment; a backup that holds no copy is not asserted (the statement says 'stale')",
+    "rule": "reads: non-trivial = >= 2 copies with different timestamps and the newest is not on the primary owner. merge: non-trivial = an overlapping key delivered out of timestamp order. distinct = distinct case hash",
+    "assumptions": ["ReadQuorum 1"],
+    "parts": [
+        {"name": "reads", "pkg": ROOT, "test": "TestVerifC06Reads", "kind": "rapid",
+         "checks_quick": 25, "checks_thorough": 600, "shards_quick": 8, "shards_thorough": 16, "timeout_quick": 400, "timeout_thorough": 2400},
+        {"name": "merge", "pkg": ROOT, "test": "TestVerifC06Merge", "kind": "rapid",
+         "checks_quick": 400, "checks_thorough": 10000, "shards_quick": 4, "shards_thorough": 16, "timeout_quick": 400, "timeout_thorough": 2400},
+    ],
+}
